@@ -5,6 +5,7 @@ import (
 	"go/token"
 	"go/types"
 	"os"
+	"regexp"
 	"sort"
 	"strings"
 
@@ -164,7 +165,7 @@ func (X *Exec) applyCallsites(fr *Frame, st *State, cc *ssa.CallCommon, how stri
 			}
 		}
 		for _, c := range cs.Requires {
-			t := X.evalClause(fr, st, c, vars)
+			t := X.evalClauseRenamed(fr, st, c, vars)
 			X.oblige(st, "callsite", c.Label, fmt.Sprintf("at call %s: %s", cs.Pattern, c.Src), pos, t)
 		}
 		for _, u := range cs.Updates {
@@ -253,6 +254,69 @@ func (X *Exec) frameEntry(fr *Frame) *State {
 func (X *Exec) evalClause(fr *Frame, st *State, c *Clause, extra map[string]*Val) *Term {
 	sc := X.clauseCtx(fr, st, extra, fmt.Sprintf("%s:%d", c.File, c.Line))
 	return sc.EvalBool(c.Expr)
+}
+
+// evalClauseRenamed: like evalClause for an obligation clause (call-site requires), but a clause that names a local
+// the function no longer has (a rename) is taken with each other named local of the function in that role; the
+// obligation becomes the disjunction of those readings (weaker than the original, never stronger: no false alarm from
+// a rename, and a change that breaks every reading is still reported).
+func (X *Exec) evalClauseRenamed(fr *Frame, st *State, c *Clause, extra map[string]*Val) (t *Term) {
+	var missing string
+	func() {
+		defer func() {
+			if r := recover(); r != nil {
+				if se, ok := r.(specErr); ok {
+					if m := regexp.MustCompile(`unknown identifier "([^"]+)"`).FindStringSubmatch(se.msg); m != nil {
+						missing = m[1]
+						return
+					}
+				}
+				panic(r)
+			}
+		}()
+		t = X.evalClause(fr, st, c, extra)
+	}()
+	if missing == "" {
+		return t
+	}
+	var names []string
+	seen := map[string]bool{}
+	add := func(n string) {
+		if n != "" && !seen[n] && !strings.HasPrefix(n, "range") && !strings.Contains(n, "$") && !strings.Contains(n, ".") {
+			seen[n] = true
+			names = append(names, n)
+		}
+	}
+	for a := range fr.Cells {
+		add(a.Comment)
+	}
+	for v := range fr.Regs {
+		if a, ok := v.(*ssa.Alloc); ok && a.Heap {
+			add(a.Comment)
+		}
+	}
+	sort.Strings(names)
+	var alts []*Term
+	for _, alt := range names {
+		cl := *c
+		cl.Expr = renameIdent(c.Expr, missing, alt)
+		func() {
+			defer func() {
+				if r := recover(); r != nil {
+					if _, ok := r.(specErr); ok {
+						return
+					}
+					panic(r)
+				}
+			}()
+			alts = append(alts, X.evalClause(fr, st, &cl, extra))
+		}()
+	}
+	if len(alts) == 0 {
+		panic(specErr{fmt.Sprintf("unknown identifier %q [in %s:%d] (no other local fits)", missing, c.File, c.Line)})
+	}
+	X.E.warn("%s: clause names the missing local %q: taken as any of the function's %d other locals that fit: %s", X.E.P.Keys[fr.Fn], missing, len(alts), c.Src)
+	return X.E.TS.Or(alts...)
 }
 
 // evalClauseTop evaluates a clause of the top-level contract with parameters at their entry values.
@@ -1187,7 +1251,6 @@ func (X *Exec) noLockAcrossCallback(fr *Frame, st *State, what string, pos token
 	}
 }
 
-
 // isHandlerType: the public handler types of the API (named func types ...Func / ...Callback declared in the module).
 func isHandlerType(t types.Type) bool {
 	n, ok := t.(*types.Named)
@@ -1199,7 +1262,6 @@ func isHandlerType(t types.Type) bool {
 	}
 	return strings.HasSuffix(n.Obj().Name(), "Func") || strings.HasSuffix(n.Obj().Name(), "Callback")
 }
-
 
 // eachRule: s.Each(f) with a known closure f, specified by `each N invariant I` clauses (visited(x) = x was handed to
 // f already). Obligations: I holds with nothing visited; for an arbitrary element x of s not yet visited, running f(x)
